@@ -223,6 +223,12 @@ theorem level_text_unknown : ∀ l ∈ allLevels, l ∉ Level.validLevels →
 theorem level_text_injective (k : LvlEnc) : ∀ a ∈ allLevels, ∀ b ∈ allLevels, levelText k a = levelText k b → a = b :=
   levelText_inj k
 
+/-- … and the text survives the JSON string encoding unchanged (the ESC of the colour variants is written as \\u001b
+    and read back), so the decoded level member determines the level -/
+theorem level_member_decodes (k : LvlEnc) : ∀ l ∈ allLevels, unescape (esc (levelText k l)) = some (levelText k l) := by
+  intro l hl
+  rw [string_recoverable, sanitize_ascii _ _ (Nat.le_refl _) (levelText_ascii k l hl)]
+
 /-- durations, `NanosDurationEncoder`: the integer nanoseconds, recoverable from the text -/
 theorem nanos_duration_recoverable (o : SubRes) (n : Int) :
     primJ (.dur ⟨n, durRes (some .nanos) o n⟩) = J.atom (fmtInt n) ∧ intOf (fmtInt n) = n :=
@@ -309,6 +315,91 @@ example : durString 1500000000 = litStr "1.5s" ∧ durString 999 = litStr "999ns
     durString 3600000000000 = litStr "1h0m0s" ∧ durString (-1) = litStr "-1ns" ∧
     durString (2 ^ 63 - 1) = litStr "2562047h47m16.854775807s" ∧
     durString (-(2 ^ 63)) = litStr "-2562047h47m16.854775808s" := by decide +kernel
+
+/-- the duration text survives the JSON string encoding byte for byte: decoding the emitted string body gives back
+    `Duration.String()` exactly — including the two-byte `µ` of "µs", the only non-ASCII text a built-in emits -/
+theorem string_duration_decodes (d : Int) : unescape (esc (durString d)) = some (durString d) := by
+  rw [string_recoverable]
+  congr 1
+  -- with an ASCII prefix (the sign, or nothing) in front of the magnitude text
+  have key : ∀ (pre : Bytes) (u : Nat), (∀ b ∈ pre, b < 128) →
+      sanitize (pre ++ durMag u).length (pre ++ durMag u) = pre ++ durMag u := by
+    intro pre u hpre
+    have ascii : ∀ t : Bytes, (∀ b ∈ t, b < 128) → sanitize (pre ++ t).length (pre ++ t) = pre ++ t := by
+      intro t ht
+      exact sanitize_ascii _ _ (Nat.le_refl _) (by
+        intro b hb
+        rcases List.mem_append.mp hb with hb | hb
+        · exact hpre b hb
+        · exact ht b hb)
+    have lit : ∀ (t : Bytes), (∀ b ∈ t, b < 128) → ∀ (n : Nat) (x : Bytes), (∀ b ∈ x, b < 128) →
+        ∀ b ∈ fmtNat n ++ x ++ t, b < 128 := by
+      intro t ht n x hx b hb
+      simp only [List.mem_append] at hb
+      rcases hb with (hb | hb) | hb
+      · exact fmtNat_ascii n b hb
+      · exact hx b hb
+      · exact ht b hb
+    by_cases h0 : u = 0
+    · subst h0
+      rw [durMag_zero]
+      exact ascii _ (by decide)
+    · by_cases h1 : u < 1000000000
+      · rw [string_duration_subsecond u (by omega) h1]
+        by_cases a : u < 1000
+        · simp only [a, if_true]
+          have := lit (litStr "ns") (by decide +kernel) u [] (by simp)
+          simp only [List.append_nil] at this
+          exact ascii _ this
+        · by_cases b : u < 1000000
+          · simp only [a, b, if_true, if_false]
+            have lus : litStr "µs" = [194, 181, 115] := by decide +kernel
+            rw [lus]
+            have hA : ∀ x ∈ pre ++ (fmtNat (u / 1000) ++ fracText 3 u), x < 128 := by
+              intro x hx
+              simp only [List.mem_append] at hx
+              rcases hx with hx | hx | hx
+              · exact hpre x hx
+              · exact fmtNat_ascii _ x hx
+              · exact fracText_ascii 3 u x hx
+            have e : pre ++ (fmtNat (u / 1000) ++ fracText 3 u ++ [194, 181, 115]) =
+                (pre ++ (fmtNat (u / 1000) ++ fracText 3 u)) ++ [194, 181, 115] := by simp
+            rw [e]
+            have hl : ((pre ++ (fmtNat (u / 1000) ++ fracText 3 u)) ++ [194, 181, 115]).length =
+                (pre ++ (fmtNat (u / 1000) ++ fracText 3 u)).length + 3 := by simp; omega
+            rw [hl, sanitize_ascii_append _ _ 3 hA, sanitize_micro]
+          · simp only [a, b, if_false]
+            exact ascii _ (lit (litStr "ms") (by decide +kernel) _ _ (fracText_ascii 6 u))
+      · rw [string_duration_shape u (by omega)]
+        apply ascii
+        intro b hb
+        simp only [List.mem_append] at hb
+        rcases hb with (((hb | hb) | hb) | hb) | hb
+        · split at hb
+          · simp only [List.mem_append, List.mem_singleton] at hb
+            rcases hb with hb | hb
+            · exact fmtNat_ascii _ b hb
+            · rw [hb]; decide
+          · simp at hb
+        · split at hb
+          · simp only [List.mem_append, List.mem_singleton] at hb
+            rcases hb with hb | hb
+            · exact fmtNat_ascii _ b hb
+            · rw [hb]; decide
+          · simp at hb
+        · exact fmtNat_ascii _ b hb
+        · exact fracText_ascii 9 u b hb
+        · simp only [List.mem_singleton] at hb; rw [hb]; decide
+  unfold durString
+  by_cases hneg : d < 0
+  · simp only [hneg, if_true]
+    exact key [45] d.natAbs (by decide)
+  · simp only [hneg, if_false]
+    exact key [] d.natAbs (by simp)
+
+/-- so the whole chain closes for `StringDurationEncoder`: JSON string → text → duration -/
+theorem string_duration_roundtrip (d : Int) : (unescape (esc (durString d))).bind durParse = some d := by
+  rw [string_duration_decodes]; exact durParse_durString d
 
 /-- times, `EpochNanosTimeEncoder`: the integer `UnixNano()`, recoverable from the text -/
 theorem epoch_nanos_recoverable (o : SubRes) (n : Int) :
